@@ -248,6 +248,7 @@ func (s *Stream) write(p []byte, op *net.OpError) (int, error) {
 	total := 0
 	n, err, closeAfter := s.writeLocked(p, op, &total)
 	s.calls = append(s.calls, WriteRecord{Offset: start, Len: len(p), N: n, Err: err})
+	s.broadcast()
 	s.mu.Unlock()
 	if closeAfter && s.link != nil {
 		s.link.Close()
@@ -406,7 +407,9 @@ func (s *Stream) AddWriteFault(f WriteFault) {
 
 // FailWriteAt makes the Write call that reaches absolute offset off accept only the bytes before
 // off and return err (ErrInjected if nil). Later writes succeed again (one-shot).
-func (s *Stream) FailWriteAt(off int64, err error) { s.AddWriteFault(WriteFault{Offset: off, Err: err}) }
+func (s *Stream) FailWriteAt(off int64, err error) {
+	s.AddWriteFault(WriteFault{Offset: off, Err: err})
+}
 
 // StallWriteAt makes the Write call that reaches off block there (see WriteFault.Stall).
 func (s *Stream) StallWriteAt(off int64, d time.Duration) {
